@@ -512,6 +512,59 @@ def ob_block_fanout(w, P):
     return cl
 
 
+def ob_block_fanout_il(w, P):
+    """two threads share one FanoutCache object and both run a transact() block, suspended part-way (Interleaver): the second
+    block waits until the first has ended (it cannot join it), an abandoned block leaves nothing, a completed one everything"""
+    L = w.L
+    shards = 2
+    w.clock_fn = lambda: 0.0
+    try:
+        fc = L.fanout.FanoutCache(w.dir, shards=shards, cull_limit=0, eviction_policy='none')
+        for sh in fc._shards:
+            sh._con
+    finally:
+        w.clock_fn = None
+    w.preconnect(fc._shards[0], (w.pid, 2))
+    w.preconnect(fc._shards[1], (w.pid, 2))
+    box = {}
+
+    class _Stop(Exception):
+        pass
+
+    def run_a():
+        with fc.transact():
+            fc.set(0, 10)
+            fc.set(1, 11)
+        box['A'] = True
+
+    def run_b():
+        try:
+            with fc.transact():
+                box['seen'] = (fc.get(0), fc.get(1))
+                box['set'] = fc.set(2, 77)
+                if P['b'] == 'abandon':
+                    raise _Stop()
+            box['B'] = True
+        except _Stop:
+            box['B'] = 'aborted'
+    at = w.int('at', 0, P.get('max_events', 10))
+    at2 = w.int('at2', 0, P.get('max_events', 10))
+    w.start_events()
+    il = w.interleave(run_a, run_b, at, at2, id_a=(w.pid, 1), id_b=(w.pid, 2))
+    w.stop_events()
+    if not il.b_started:
+        return []
+    cl = []
+    cl.append(('C06,C05', 'both blocks ran to their end (%r)' % (box,), box.get('A') is True and box.get('B') in (True, 'aborted')))
+    cl.append(('C06,C05', "a block sees the other block's writes all or none", box.get('seen') in ((None, None), (10, 11))))
+    cl.append(('C06,C14', 'a write inside a block that owns every shard is not refused', box.get('set') is True))
+    cl.append(('C06', "the first block's writes are there", fc.get(0) == 10 and fc.get(1) == 11))
+    cl.append(('C06,C05', 'an abandoned block leaves nothing, a completed one its write', fc.get(2) == (None if P['b'] == 'abandon' else 77)))
+    cl.append(('C06', 'no transaction is left open or owned', all(sh._txn_id is None for sh in fc._shards)))
+    flag('nontrivial')
+    return cl
+
+
 def jobs(tier):
     out = []
 
@@ -529,10 +582,10 @@ def jobs(tier):
         for ops in ['setf+delete', 'pop+setf', 'set+set']:
             add('ob_block', 'C06,C08', weight=N * 2, must=['block_raised'], N=N, ops=ops, nested=True, no_cull=True)
         add('ob_block', 'C06,C08', weight=N * 3, N=N, ops='setf+pop', policy='least-recently-stored')
-        add('ob_block', 'C06,C08', weight=N * 2, must=['block_raised'], N=N, ops='set+delete', exc='base', no_cull=True)
+        add('ob_block', 'C06,C08,C05', weight=N * 2, must=['block_raised'], N=N, ops='set+delete', exc='base', no_cull=True)
         add('ob_block', 'C06,C08', weight=N * 2, must=['block_raised', 'prelude'], N=N, ops='delete', prelude=True, no_cull=True)
         add('ob_block', 'C06,C08', weight=N * 2, must=['block_raised', 'prelude'], N=N, ops='set+pop', prelude=True, no_cull=True)
-        add('ob_block', 'C06,C08', weight=N * 2, must=['block_raised'], N=N, ops='setf', exc='base', nested=True, no_cull=True)
+        add('ob_block', 'C06,C08,C05', weight=N * 2, must=['block_raised'], N=N, ops='setf', exc='base', nested=True, no_cull=True)
         # the batch removals (clear / expire / evict) inside a block: their file removals wait for the outer COMMIT too
         for ops in ('clear+set', 'expire+set', 'evict+delete', 'setf+clear'):
             add('ob_block', 'C06,C08,C03', weight=N * 2, must=['block_raised', 'block_committed'], N=N, ops=ops, no_cull=True)
@@ -547,4 +600,7 @@ def jobs(tier):
     add('ob_block_fanout', 'C06,C08', weight=8, must=['block_raised', 'block_committed'], nops=2)
     add('ob_block_fanout', 'C06,C14,C20,C15', weight=20, must=['intruded_inside'], nops=1, intrude=True)
     add('ob_block_fanout', 'C07,C06', weight=30, must=['crashed'], nops=2, crash=True)
+    for b in ('abandon', 'complete'):
+        out.append(dict(id='block_fanout_il.%s' % b, func='ob_block_fanout_il', params=dict(b=b), tags=['C06', 'C05', 'C14'], weight=10, must_reach=['both_suspended'], twin=False,
+                        functions=['fanout.FanoutCache.transact', 'core.Cache.transact', 'core.Cache._transact', 'fanout.FanoutCache.set', 'fanout.FanoutCache.get']))
     return out
